@@ -116,11 +116,13 @@ def gen_cases(sch, rng, tier):
         nrec = 1 + rng.below(40 if tier == 'quick' else 80)
         big = rng.chance(1, 6)
         ops = streamlib.gen_history(sch, root, rng, nrec, big=big)
+        transcode = rng.choice(['', '', 'all', 'odd', 'even', 'thirds'])
         fz = rng.chance(1, 2)          # all dictionary structs of a history frozen, or none (mixing: scenario S7)
         for op in ops:
             if op['op'] == 'set':
                 op['freeze'] = fz
-        cases.append(dict(id=f'h{i}', root=root, opts=opts, ops=ops))
+        cases.append(dict(id=f'h{i}', root=root, opts=opts, ops=ops, transcode=transcode))
+        stats[f'transcode_{transcode or "none"}'] += 1
         stats[f'freeze_{int(fz)}'] += 1
         stats[f'root_{root}'] += 1
         stats[f'compr_{opts["compression"]}'] += 1
@@ -230,6 +232,18 @@ def check_case(prop, c, o, m, verdict, known, counters, sch):
             return
         if rd.get('err') != 'eof':
             fail('no-eof', f'reader ended with {rd.get("err")!r} instead of end of stream'); return
+        tr = o.get('trans')
+        if tr:
+            # the records read back, handed by CopyFrom (frozen dictionary values shared with the reader's
+            # dictionaries) to a second writer: a reader of the second stream returns exactly those records
+            if tr.get('panic') or tr.get('err'):
+                fail('transcode', f'transcoding the stream failed: {(tr.get("panic") or tr.get("err"))[:160]}', dict(transcode=c.get('transcode'))); return
+            if tr.get('got') != tr.get('expected'):
+                ex, gt = tr.get('expected') or [], tr.get('got') or []
+                i = next((i for i in range(min(len(ex), len(gt))) if ex[i] != gt[i]), min(len(ex), len(gt)))
+                fail('transcode', f'transcoded record {i}: a reader of the second stream returns something else than the record that was copied ({len(gt)} read, {len(ex)} copied)',
+                     dict(first_diff=i, copied=ex[i] if i < len(ex) else None, read=gt[i] if i < len(gt) else None, transcode=c.get('transcode'))); return
+            counters['transcoded_streams'] += 1
         if not rd.get('stable', True):
             fail('unstable', 'a value taken from an earlier record changed while later records were read'); return
         if o.get('wcount') != len(written):
